@@ -6,11 +6,16 @@ import sys
 import threading
 
 
-def hammer(work, threads=4, rounds=3, interval=1e-6):
+def hammer(work, threads=4, rounds=3, interval=1e-6, inject=None, first_round=0):
+    """inject: path prefix - line-level yield injection (class Yields) inside files under it; such runs are an
+    order of magnitude slower, the caller passes first_round >= 100 and the workers do less then."""
     old = sys.getswitchinterval()
     sys.setswitchinterval(interval)
     found, errors = [], []
     lock = threading.Lock()
+    inj = Yields(inject) if inject else None
+    if inj is not None:
+        inj.__enter__()
 
     def run(tid, rnd):
         try:
@@ -23,7 +28,7 @@ def hammer(work, threads=4, rounds=3, interval=1e-6):
             with lock:
                 found.extend(out[:3])
     try:
-        for rnd in range(rounds):
+        for rnd in range(first_round, first_round + rounds):
             ts = [threading.Thread(target=run, args=(i, rnd)) for i in range(threads)]
             for t in ts:
                 t.start()
@@ -31,4 +36,96 @@ def hammer(work, threads=4, rounds=3, interval=1e-6):
                 t.join()
     finally:
         sys.setswitchinterval(old)
+        if inj is not None:
+            inj.__exit__()
+            hammer.lines_with_injection = getattr(hammer, "lines_with_injection", 0) + inj.lines
     return found, errors
+
+
+def cold(work, attempts=100, threads=8, interval=1e-6, inject=None):
+    """First use from several threads at once: for every attempt the hand-written modules are imported
+    afresh (module-level tables, caches and memos are empty again), then `threads` threads are released
+    from a barrier and call work(ns, tid, attempt) -> list of findings."""
+    from vf import stage
+
+    old = sys.getswitchinterval()
+    sys.setswitchinterval(interval)
+    found, errors = [], []
+    lock = threading.Lock()
+    inj = Yields(inject) if inject else None
+    if inj is not None:
+        inj.__enter__()
+    try:
+        for attempt in range(attempts):
+            ns = stage.shim()
+            barrier = threading.Barrier(threads)
+
+            def run(tid, ns=ns, attempt=attempt):
+                try:
+                    barrier.wait()
+                    out = work(ns, tid, attempt) or []
+                except BaseException as e:
+                    with lock:
+                        errors.append("attempt %d thread %d: %r" % (attempt, tid, e))
+                    return
+                if out:
+                    with lock:
+                        found.extend(out[:2])
+            ts = [threading.Thread(target=run, args=(i,)) for i in range(threads)]
+            for t in ts:
+                t.start()
+            for t in ts:
+                t.join()
+            if found or errors:
+                break
+    finally:
+        sys.setswitchinterval(old)
+        if inj is not None:
+            inj.__exit__()
+            cold.lines_with_injection = inj.lines
+    return found, errors
+
+
+class Yields:
+    """Yield injection (sys.monitoring, 3.12+): at every line event inside files under `prefix` the running
+    thread gives up the interpreter with probability p, so that thread switches fall between any two
+    statements of the code under observation instead of only where the scheduler happens to put them."""
+
+    TOOL = 3
+
+    def __init__(self, prefix, p=0.35, seed=0):
+        import random
+
+        self.prefix, self.p, self.rng, self.lines = prefix, p, random.Random(seed), 0
+        self.active = False
+
+    def __enter__(self):
+        mon = getattr(sys, "monitoring", None)
+        if mon is None:
+            return self
+        try:
+            mon.use_tool_id(self.TOOL, "vf-yield-injection")
+        except ValueError:
+            return self
+        mon.register_callback(self.TOOL, mon.events.LINE, self._line)
+        mon.set_events(self.TOOL, mon.events.LINE)
+        self.active = True
+        return self
+
+    def _line(self, code, line):
+        if not code.co_filename.startswith(self.prefix):
+            return sys.monitoring.DISABLE
+        self.lines += 1
+        if self.rng.random() < self.p:
+            import time
+
+            time.sleep(0)
+
+    def __exit__(self, *exc):
+        if self.active:
+            mon = sys.monitoring
+            mon.set_events(self.TOOL, 0)
+            mon.register_callback(self.TOOL, mon.events.LINE, None)
+            mon.free_tool_id(self.TOOL)
+            self.active = False
+        return False
